@@ -17,8 +17,8 @@ type C14Case struct {
 }
 
 func GenC14() *rapid.Generator[C14Case] {
-	dag := genNet(NetCfg{MinHidden: 1, AllowOrphans: true, LongChains: true})
-	cyc := genNet(NetCfg{MinHidden: 1, Cyclic: true, ParallelLinks: true, MaxHidden: 6})
+	dag := genNet(NetCfg{MinHidden: 1, AllowOrphans: true, LongChains: true, Rename: true})
+	cyc := genNet(NetCfg{MinHidden: 1, Cyclic: true, ParallelLinks: true, MaxHidden: 6, Rename: true})
 	return rapid.Custom(func(t *rapid.T) C14Case {
 		var c C14Case
 		if rapid.IntRange(0, 2).Draw(t, "cyclic") == 0 {
@@ -46,6 +46,9 @@ func CheckC14(c C14Case, rec *Rec) error {
 	}
 	model, merr := c.Net.longestPathToOutputs()
 	acyclic := merr == nil
+	if c.Net.Renamed {
+		rec.Class("node list does not start with the sensors")
+	}
 	if len(c.Net.Nodes) > 32 {
 		rec.Class("more than 32 nodes")
 	}
